@@ -154,7 +154,7 @@ def run_case(case):
         back = transport(value, path, cfg)
         o2 = extract(ctx, back)
     except Exception as ex:
-        slot = "slotted" if spec[0].partition("@")[0] != "dict" else "dict"
+        slot = "slotted" if spec[0].partition("@")[0] not in ("dict",) and "S" in spec[0].replace("slots", "S") else "dict"
         mangled = "mangled" if any("c" in l for l in spec[1]) else "plain"
         return out.bad("%s/raises-%s/%s-%s-%s" % (sig, type(ex).__name__, slot, mangled, "nested" if ctx != "top" else "top"),
                        "spec %r values %r in context %s via %s raised %r" % (spec, assignment, ctx, path, ex))
@@ -178,6 +178,15 @@ def shape_cases(tier):
         a = default_assignment(nfields(spec))
         yield (spec, a, "top", "dump-load", False)
         yield (spec, a, "list", "dumps-loads", False)
+    # every mix of slotted and non-slotted classes over three (thorough: four) levels, fields at every level
+    import itertools as _it
+    for n in ((3,) if tier == "quick" else (3, 4)):
+        for pattern in _it.product("SP", repeat=n):
+            for kinds in ((("a",),) * n, (("a", "c"),) + (("b",),) * (n - 1), (("c",),) + ((),) * (n - 2) + (("a",),)):
+                spec = ("mix:" + "".join(pattern), kinds, "none", "none")
+                a = default_assignment(nfields(spec))
+                yield (spec, a, "top", "dump-load", False)
+                yield (spec, a, "dict", "rpc-result-1", False)
     for spec in classgen.specs(1, storages=("dict@_", "slots@_", "slots-on-dict@_", "dict-on-slots@_", "slots@__")):
         a = default_assignment(nfields(spec))
         yield (spec, a, "top", "dump-load", False)
@@ -349,7 +358,7 @@ META = {
     "against a structural equality oracle",
     "rule": "shapes: every class hierarchy with storage in {__dict__, __slots__, slots on dict base, dict on slots base}, depth 0-2 (thorough 0-3), "
     "0-2 fields per level drawn from {public, protected, name-mangled}, through dump/load (top) and dumps/loads (in a list), and the depth 0-1 hierarchies "
-    "again with class names that start with one or two underscores; values: 13 representative "
+    "again with class names that start with one or two underscores, and every mix of slotted / non-slotted classes over 3 (thorough 4) levels; values: 13 representative "
     "hierarchies x each field over 17 values (primitives, containers, and values of subclass types: OrderedDict, Counter, dict/list/str/int subclasses, namedtuple) (all pairs for 2-field classes) x 8 contexts (top, containers, beans, 40 levels deep) x 6 paths (dump/load, dumps/loads, RPC parameter and result under "
     "1.0 and 2.0) x module-qualified / locally registered; serialize: serialisation-method classes (list args, dict args, custom method name) x 8 "
     "attribute values x contexts x paths; singletons: 5 enum members, 7 Decimals and 3 fractions.Fraction objects (a slotted standard-library class) x contexts x paths; histories: every sequence of 3 (thorough 5) round trips "
